@@ -100,9 +100,28 @@ func runC19(r *simkit.Run) {
 		// the slot is encoded in the slot identity (first, by construction checked below)
 		trigs = append(trigs, c19Trigger{node: nd.name, ids: ids})
 	}
+	// a second keyper set (same members and keys) takes over at a block inside the run: from then
+	// on the slots are served with that set's pointer and queue
+	switchBlock := int64(0)
+	if c.Chance(350, "keyper-set-switch") {
+		switchBlock = int64(c.Range(2, 9, "keyper-set-switch-block"))
+		r.Probe("runs-with-keyper-set-switch")
+	}
 	var cns []*c19Node
 	for i := 0; i < n; i++ {
 		nd := w.addNode(fmt.Sprintf("k%d", i), i, dkgSuccess, nil)
+		if switchBlock > 0 {
+			w.provisionConfig(nd, 2, 9, dkgSuccess, true, w.keys)
+			for _, q := range []string{
+				"UPDATE eons SET activation_block_number = $1 WHERE keyper_config_index = 2",
+				"UPDATE tendermint_batch_config SET activation_block_number = $1 WHERE keyper_config_index = 2",
+				"UPDATE keyper_set SET activation_block_number = $1 WHERE keyper_config_index = 2",
+			} {
+				if _, err := nd.pool.Exec(nd.ctx, q, switchBlock); err != nil {
+					r.InfraFail("activation of keyper set 2: %v", err)
+				}
+			}
+		}
 		eth, srv, err := w.chain.Client(nd.name)
 		if err != nil {
 			r.InfraFail("eth client: %v", err)
@@ -282,10 +301,10 @@ func runC19(r *simkit.Run) {
 				var specs []simeth.LogSpec
 				for i := c.Intn(4, "txs-in-block"); i > 0; i-- {
 					eon := uint64(w.kci)
-					ei := 0
-					if c.Chance(150, "other-eon") {
-						eon, ei = 2, 1
+					if c.Chance(150, "other-eon") || (switchBlock > 0 && w.kci == 1 && c.Chance(300, "for-the-next-keyper-set")) {
+						eon = 3 - eon
 					}
+					ei := int(eon - 1)
 					gas := simkit.Pick(c, []int64{21_000, 21_000, 21_000, 30_000, 50_000, 79_000, 100_000, 100_001, 250_000}, "gas")
 					// identity prefixes in no particular order relative to the queue order
 					prefix := [32]byte{byte(c.Intn(256, "prefix-byte")), byte(salt), byte(i), 0x33}
@@ -312,7 +331,13 @@ func runC19(r *simkit.Run) {
 				})
 			}
 			runAll("sync")
-			r.Eventf("synced head %d (queue eon1=%d)", head.Number, txCount[0])
+			r.Eventf("synced head %d (queue eon1=%d eon2=%d)", head.Number, txCount[0], txCount[1])
+			if switchBlock > 0 && w.kci == 1 && int64(head.Number)+1 >= switchBlock {
+				// the next block belongs to keyper set 2: all oracles follow
+				w.kci = 2
+				r.Probe("keyper-set-switched")
+				r.Eventf("keyper set 2 is active from block %d on", switchBlock)
+			}
 		case 1: // slot trigger
 			slot++
 			var who []*c19Node
